@@ -230,7 +230,11 @@ func (r *request) buildHTTP(mediaType, basePath string, producers map[string]run
 			goto DoneChoosingBodySource
 		}
 
-		producer := producers[mediaType]
+		producer, ok := producers[mediaType]
+		if !ok {
+			// e.g. a body parameter on an operation whose first media type is a form type
+			return nil, fmt.Errorf("no producer registered for %q: cannot write the body parameter", mediaType)
+		}
 		if err := producer.Produce(r.buf, r.payload); err != nil {
 			return nil, err
 		}
